@@ -224,6 +224,49 @@ theorem C16_fed_value_not_raw (l : FLink) :
   | none => exact Or.inl rfl
   | some a => exact Or.inr ⟨a, rfl⟩
 
+/-- hypotheses under which the order theorems give readiness (all decidable on concrete lists): every graph key
+    matches exactly the components it owns (`owner`: a class component owns itself, a parameter component `b.p0` is
+    owned by `b`); sources are class components owning themselves; whatever consumes a link's target is owned by the
+    link's target node. -/
+structure OwnedKeys (links : List FLink) (setOrder dests : List String) (isClass : String → Bool)
+    (owner : String → String) : Prop where
+  nodup : dests.Nodup
+  own : ∀ k ∈ (build (instantiationEdges (links.map FLink.toLink) setOrder)).nodes, ∀ c ∈ dests,
+    keyMatches k c = true ↔ k = owner c
+  src : ∀ l ∈ links, ∀ s ∈ l.sources, s.1 ∈ dests ∧ isClass s.1 = true ∧ owner s.1 = s.1
+  cons : ∀ l ∈ links, ∀ c ∈ dests, feeds c l.target = true → owner c = targetNode l.target
+
+/-- C16_sources_ready: for an acyclic link set (the order computation succeeded) with owned keys, along the component
+    sequence that `instantiate_classes` walks every component finds the sources of its links constructed —
+    in every declaration order of links and components. -/
+theorem C16_sources_ready (setOrder dests seq : List String) (isClass : String → Bool) (owner : String → String)
+    (h : componentOrder (links.map FLink.toLink) setOrder dests = .ok seq)
+    (hk : OwnedKeys links setOrder dests isClass owner) :
+    SourcesReady links [] (seq.map fun d => (d, isClass d)) :=
+  sourcesReady_of_order links setOrder dests seq isClass owner h hk.nodup hk.own hk.src hk.cons
+
+/-- C16_fed_value_acyclic: the composition — acyclic, owned keys ⇒ every argument received through a link key is
+    `F(sources' constructed objects / attributes)`, every class component is fed by all its links, and each class
+    component is constructed exactly once. -/
+theorem C16_fed_value_acyclic (setOrder dests seq : List String) (isClass : String → Bool) (owner : String → String)
+    (h : componentOrder (links.map FLink.toLink) setOrder dests = .ok seq)
+    (hk : OwnedKeys links setOrder dests isClass owner) :
+    let r := instantiateClasses F links order (seq.map fun d => (d, isClass d)) Cfg.parsed
+    (∀ e ∈ r.log, ∀ kv ∈ e.2, ∃ l ∈ links, l.target = kv.1 ∧ kv.2 = goodValue F l) ∧
+    (∀ d ∈ seq, isClass d = true → ∃ e ∈ r.log, e.1 = d ∧ ∀ l ∈ links, feeds d l.target = true → ∃ v, (l.target, v) ∈ e.2) ∧
+    (∀ d ∈ seq, isClass d = true → (r.log.map (·.1)).count d = 1) := by
+  have hready := C16_sources_ready links setOrder dests seq isClass owner h hk
+  obtain ⟨h1, h2⟩ := C16_fed_value F links order _ hready
+  have hmap : (seq.map fun d => (d, isClass d)).map (·.1) = seq := by simp [List.map_map, Function.comp_def]
+  have hseqnd : seq.Nodup := by
+    have := sourcesReady_seq_nodup links setOrder dests seq h hk.nodup
+    exact this
+  refine ⟨h1, ?_, ?_⟩
+  · intro d hd hc
+    exact h2 d (List.mem_map.mpr ⟨d, hd, by rw [hc]⟩)
+  · intro d hd hc
+    exact (C16_each_once F links order _).2 (by rw [hmap]; exact hseqnd) d (List.mem_map.mpr ⟨d, hd, by rw [hc]⟩)
+
 /-- C16_bookkeeping_fresh: for the bookkeeping as extracted from the source (`Jap.Gen.linkStateWrites`: no write
     outside cfg; the set is popped from and stored into cfg), every call of a session — whatever calls came before,
     complete or failed part-way — starts from the applied set of its own cfg; for parsed configurations: empty. -/
@@ -314,6 +357,16 @@ example : (instantiateClasses Val.app [⟨[("a", none)], "root.child.init_args.p
        ("b", [("b.p0", .obj "root")]), ("a", [])] := rfl
 example : ¬ SourcesReady [⟨[("a", none)], "root.child.init_args.p", none⟩, ⟨[("root", none)], "b.p0", none⟩] []
     [("root.child", true), ("root", true), ("b", true), ("a", true)] := by decide
+
+-- `OwnedKeys` is satisfiable by a real component list (parameter components `a.p0`, … owned by their class)
+def exLinks : List FLink := [⟨[("c", none)], "a.p0", none⟩, ⟨[("a", some "at")], "b.init_args.p0", none⟩,
+  ⟨[("c", some "at"), ("a", none)], "b.init_args.p1", some "f2"⟩]
+def exDests : List String := ["a.p0", "a.p1", "c", "b", "a"]
+def exOwner (d : String) : String := if d = "a.p0" ∨ d = "a.p1" then "a" else d
+def exIsClass (d : String) : Bool := d == "a" || d == "b" || d == "c"
+example : componentOrder (exLinks.map FLink.toLink) ["a", "b"] exDests = .ok ["c", "a.p0", "a.p1", "a", "b"] := rfl
+example : OwnedKeys exLinks ["a", "b"] exDests exIsClass exOwner :=
+  ⟨by decide, by decide, by decide, by decide⟩
 
 end Jap.Props.C16
 
